@@ -150,6 +150,7 @@ def c19(tier, seed):
 
 VERIFY_FAIL = "local y = -((-x))\n"   # formats to -(-x); StyLua's own AST verifier rejects it (one paren layer only)
 KINDS = {
+    "b": "\ufefflocal x = 1\n",  # UTF-8 byte order mark: a parse error for full_moon
     "s": FORMATTED,
     "d": UNFORMATTED,
     "p": UNPARSEABLE,
@@ -235,7 +236,7 @@ def c13(tier, seed, modes=("check",)):
     for case in range(n):
         k = rng.randrange(1, 6)
         verify = rng.random() < 0.4
-        letters = "sdpum" + ("v" if verify else "")
+        letters = "sdpumb" + ("v" if verify else "")
         outcomes = [rng.choice(letters) for _ in range(k)]
         for o in outcomes:
             dist[o] = dist.get(o, 0) + 1
@@ -265,14 +266,14 @@ def c13(tier, seed, modes=("check",)):
                         dtxt = "n=%d" % nd
                     else:
                         dtxt = ",".join(str(i) for i in sorted(_diff_ids(fmt, out_text, names)))
-                    Q.append(q("run %s %s" % (mode, "".join(outcomes)), "%d w:%s d:%s" % (rc, ",".join(str(i) for i in changed), dtxt) if fmt != "unified" else None))
+                    Q.append(q("run %s %s" % (mode, "".join(outcomes).replace("b", "p")), "%d w:%s d:%s" % (rc, ",".join(str(i) for i in changed), dtxt) if fmt != "unified" else None))
                     if fmt == "unified":
                         Q.pop()
                         exp_n = sum(1 for o in outcomes if o == "d")
                         if nd != exp_n:
                             V.append(v("C13", "unified:number-of-diffs", dict(detail, expected=exp_n, observed=nd)))
                     # ---- ring 3
-                    any_err = any(o in "pumv" for o in outcomes)
+                    any_err = any(o in "pumvb" for o in outcomes)
                     any_diff = any(o == "d" for o in outcomes)
                     if mode == "check":
                         if touched or created:
@@ -535,8 +536,24 @@ def c15(tier, seed):
         forced = None
         extra_env = {}
         args = []
+        uloc = None
         if rng.random() < 0.25 or user_scenario:
-            files["userconf/stylua/stylua.toml"] = 'indent_type = "Spaces"\nindent_width = 21\n'
+            # the four documented user-level locations; $XDG_CONFIG_HOME may be set without holding a StyLua
+            # configuration (then $HOME/.config is still consulted); XDG wins when both have one
+            uloc = rng.choice(["xdg-stylua", "xdg", "home", "home-stylua", "home+empty-xdg", "home-stylua+missing-xdg", "both"])
+            body = 'indent_type = "Spaces"\nindent_width = 21\n'
+            if uloc in ("xdg-stylua", "both"):
+                files["userconf/stylua/stylua.toml"] = body
+            if uloc == "xdg":
+                files["userconf/stylua.toml"] = body
+            if uloc in ("home", "home+empty-xdg"):
+                files["userhome/.config/stylua.toml"] = body
+            if uloc in ("home-stylua", "home-stylua+missing-xdg"):
+                files["userhome/.config/stylua/stylua.toml"] = body
+            if uloc == "both":
+                files["userhome/.config/stylua.toml"] = 'indent_type = "Spaces"\nindent_width = 23\n'
+            if uloc == "home+empty-xdg":
+                files["emptyxdg/unrelated.txt"] = "x\n"
             user = 21
         if rng.random() < 0.15:
             files["forced/my.toml"] = 'indent_type = "Spaces"\nindent_width = 25\n'
@@ -550,7 +567,14 @@ def c15(tier, seed):
             T = t.root
             cwd = os.path.join(T, "a/cwd")
             if user:
-                extra_env["XDG_CONFIG_HOME"] = os.path.join(T, "userconf")
+                if uloc in ("xdg-stylua", "xdg", "both"):
+                    extra_env["XDG_CONFIG_HOME"] = os.path.join(T, "userconf")
+                if uloc == "home+empty-xdg":
+                    extra_env["XDG_CONFIG_HOME"] = os.path.join(T, "emptyxdg")
+                if uloc == "home-stylua+missing-xdg":
+                    extra_env["XDG_CONFIG_HOME"] = os.path.join(T, "no-such-dir")
+                if uloc not in ("xdg-stylua", "xdg"):
+                    extra_env["HOME"] = os.path.join(T, "userhome")
             if spd:
                 args.append("--search-parent-directories")
             if noec:
@@ -602,7 +626,7 @@ def c15(tier, seed):
                 ",".join("%s:%d" % ("/" + lv if lv else "/", i) for lv, i in sorted(ecs.items())) or "-",
                 lex(lexdir))
             Q.append(q(req, {"default": "default"}.get(obs, None) or ("forced:%s" % obs if forced and obs == str(forced) else "user:%s" % obs if user and obs == str(user) else "ec:%s" % obs if obs.isdigit() and int(obs) in ecs.values() else "toml:%s" % obs)))
-            detail = {"argv": args, "cwd": "a/cwd", "tree": {k_: v_ for k_, v_ in files.items() if not k_.endswith("f.lua")}, "observed": obs, "exit": rc, "stderr": err.decode("utf-8", "replace")[:300]}
+            detail = {"argv": args, "cwd": "a/cwd", "user_config_location": uloc, "tree": {k_: v_ for k_, v_ in files.items() if not k_.endswith("f.lua")}, "observed": obs, "exit": rc, "stderr": err.decode("utf-8", "replace")[:300]}
             if rc != 0 or obs == "?":
                 V.append(v("C15", "run-failed", detail))
                 continue
@@ -710,7 +734,7 @@ def c17(tier, seed):
             for respect in (False, True):
                 for path_kind in ("none", "plain", "ignored", "ignored-new-nested", "ignored-existing-nested", "ignored-new-abs", "plain-new-nested", "outside-cwd",
                                   "ignored-by-own-dir", "shadowed-by-own-dir", "intermediate-without-spd", "intermediate-with-spd"):
-                    for fmtopt in ([], ["--quote-style", "ForceSingle"], ["--indent-type", "Spaces", "--indent-width", "3"], ["--line-endings", "Windows"], ["--verify"]):
+                    for fmtopt in ([], ["--quote-style", "ForceSingle"], ["--indent-type", "Spaces", "--indent-width", "3"], ["--line-endings", "Windows"], ["--verify"], ["--output-format", "json"]):
                         if name == "big" and (check or fmtopt or respect):
                             continue
                         if rng.random() < 0.5 and not (name in ("valid", "invalid", "blank-lines")):
@@ -808,10 +832,10 @@ C20_PROBE = ("local s = 'single' .. \"double\"\nf \"x\"\ng{ 1 }\nfunction foo() 
 def _c20_options():
     opts = []
     opts.append(("syntax", "--syntax", None, [('"%s"' % v, v, None, "syntax=%s" % v) for v in ("All", "Lua51", "Lua52", "Lua53", "Lua54", "Luau", "LuaJIT")]))
-    opts.append(("column_width", "--column-width", "max_line_length", [("40", "40", "40", "width=40"), ("80", "80", "80", "width=80")]))
+    opts.append(("column_width", "--column-width", "max_line_length", [("40", "40", "40", "width=40"), ("80", "80", "80", "width=80"), ("120", "120", "120", "width=120")]))
     opts.append(("line_endings", "--line-endings", "end_of_line", [('"Unix"', "Unix", "lf", "eol=Unix"), ('"Windows"', "Windows", "crlf", "eol=Windows")]))
     opts.append(("indent_type", "--indent-type", "indent_style", [('"Tabs"', "Tabs", "tab", "indent=Tabs/4"), ('"Spaces"', "Spaces", "space", "indent=Spaces/4")]))
-    opts.append(("indent_width", "--indent-width", "indent_size", [("2", "2", "2", "indent=Tabs/2"), ("8", "8", "8", "indent=Tabs/8")]))
+    opts.append(("indent_width", "--indent-width", "indent_size", [("2", "2", "2", "indent=Tabs/2"), ("8", "8", "8", "indent=Tabs/8"), ("4", "4", "4", "indent=Tabs/4")]))
     opts.append(("quote_style", "--quote-style", "quote_type", [('"AutoPreferDouble"', "AutoPreferDouble", "double", "quote=AutoPreferDouble"), ('"AutoPreferSingle"', "AutoPreferSingle", "single", "quote=AutoPreferSingle"), ('"ForceDouble"', "ForceDouble", None, "quote=ForceDouble"), ('"ForceSingle"', "ForceSingle", None, "quote=ForceSingle")]))
     opts.append(("call_parentheses", "--call-parentheses", "call_parentheses", [('"%s"' % v, v, (v.lower() if v != "Input" else None), "call=%s" % v) for v in ("Always", "NoSingleString", "NoSingleTable", "None", "Input")]))
     opts.append(("collapse_simple_statement", "--collapse-simple-statement", "collapse_simple_statement", [('"%s"' % v, v, v.lower(), "collapse=%s" % v) for v in ("Never", "FunctionOnly", "ConditionalOnly", "Always")]))
@@ -881,6 +905,17 @@ def c20(tier, seed):
                 o = open(os.path.join(t.root, "proj/p.lua"), "rb").read().decode("utf-8", "replace")
                 if o != lib:
                     V.append(v("C20", "flag-does-not-override-config:%s:%s" % (where, flagargs[0]), {"argv": args, "config_location": where, "carrier_output": o[:300], "library_output": lib[:300]}))
+    # ... and whatever the two values are (in particular when the flag spells out the built-in default while
+    # the file says something else): every ordered pair of distinct values of every option
+    for key, flag, eckey, values in _c20_options():
+        for toml_v, _, _, frag_a in values:
+            for _, flag_v, _, frag_b in values:
+                if frag_a == frag_b:
+                    continue
+                lib = _lib_format(C20_PROBE, "syntax=All " + frag_b if not frag_b.startswith("syntax") else frag_b)
+                rc, o, err = fmt_with({"stylua.toml": "%s = %s\n" % (key, toml_v)}, [flag, flag_v])
+                if o != lib or rc != 0:
+                    V.append(v("C20", "flag-does-not-override-config:value-pair:%s" % key, {"option": key, "config_file_value": toml_v, "flag_value": flag_v, "exit": rc, "carrier_output": o[:300], "library_output": lib[:300]}))
     # sort_requires
     lib = _lib_format(C20_PROBE, "syntax=All sort=true")
     for carrier, files, args in (("toml", {"stylua.toml": "[sort_requires]\nenabled = true\n"}, []), ("flag", {}, ["--sort-requires"]), ("editorconfig", {".editorconfig": "root = true\n[*.lua]\nsort_requires = true\n"}, [])):
@@ -1063,6 +1098,10 @@ def c16(tier, seed):
         # D37: src/.styluaignore (which does not mention it) shadows the root file that excludes main.lua
         (mk({"src/main.lua", "src/util.lua"}), {"": ["main.lua"], "src": ["notes.txt"]}, ["src/main.lua", "."], True, False, []),
         (mk({"src/main.lua", "src/util.lua"}), {"": ["main.lua"]}, ["src/main.lua", "."], True, False, []),
+        # several explicit files, each answered by its own ignore file (in both argument orders)
+        (mk({"a.lua", "src/util.lua", "src/main.lua"}), {"": ["notes.txt"], "src": ["util.lua"]}, ["a.lua", "src/util.lua", "src/main.lua"], True, False, []),
+        (mk({"a.lua", "src/util.lua", "src/main.lua"}), {"": ["a.lua"], "src": ["util.lua"]}, ["src/main.lua", "a.lua", "src/util.lua"], True, False, []),
+        (mk({"a.lua", "src/util.lua", "proj/src/util.lua"}), {"src": ["util.lua"]}, ["src/util.lua", "proj/src/util.lua", "a.lua"], True, False, []),
     ]
     for case in range(n + len(fixed)):
       if case < len(fixed):
